@@ -440,7 +440,7 @@ pub fn gen_program(rng: &mut Rng, n: usize, burst: bool) -> Vec<Call> {
                 Some(a) => {
                     let ta = types[a].clone().unwrap();
                     match find(&types, rng, &|t| *t == ta) {
-                        Some(b) => (Call::Bin("equal", a, b), Some(Ty::Bv(1))),
+                        Some(b) => (Call::Bin(if rng.chance(1, 3) { "distinct" } else { "equal" }, a, b), Some(Ty::Bv(1))),
                         None => continue,
                     }
                 }
@@ -713,6 +713,14 @@ fn execute(p: &Programs, n_calls: &mut u64, probes: &mut FxHashMap<&'static str,
                     _ => b.negate(x),
                 }))
             }
+            // the compound constructor `distinct` (bit-vector and array operands) against its
+            // documented composition not(equal(a, b)), built from the primitives
+            Call::Bin("distinct", a, b) if !via_builder => {
+                let (x, y) = (arg(*a), arg(*b));
+                let eq = ctx.equal(x, y);
+                expect_same_as = Some(ctx.not(eq));
+                Some(ctx.distinct(x, y))
+            }
             Call::Bin(op, a, b) if via_builder => {
                 let (x, y) = (arg(*a), arg(*b));
                 Some(ctx.build(|c| match *op {
@@ -878,6 +886,19 @@ fn execute(p: &Programs, n_calls: &mut u64, probes: &mut FxHashMap<&'static str,
         }
         if let Some(e) = out {
             if let Some(same) = expect_same_as {
+                if e != same && matches!(call, Call::Tri(..) | Call::ZeroArr(..) | Call::Bin("distinct", _, _)) {
+                    return Err(mk(
+                        "WrongNode",
+                        "compound-constructor",
+                        format!(
+                            "{call:?} returned reference {} ({:?}), but its documented composition built from the primitive constructors is reference {} ({:?})",
+                            refnum(e),
+                            readback_key(&ctx, e),
+                            refnum(same),
+                            readback_key(&ctx, same)
+                        ),
+                    ));
+                }
                 if e != same {
                     return Err(mk(
                         "NormalisationBroken",
